@@ -83,3 +83,32 @@ def expected_keys(model, obj):
             elif t == 'PARENT' and parent_is_iface:
                 keys.add('leaf')
     return keys
+
+
+def object_texts(model):
+    """schema / query / payload / expected keys for a model of kernels.k_object_selection (parent = the object type o0)"""
+    ON = model.get('obj_names') or ['O0', 'O1']
+    impl = model['implements']
+    lines = ['schema { query: Query }', f'type Query {{ n: {ON[0]} }}', 'interface I0 { leaf: Int g1: Int g2: Int }']
+    for o in range(2):
+        lines.append(f'type {ON[o]}{" implements I0" if impl[o] else ""} {{ leaf: Int g1: Int g2: Int f1: Int f2: Int }}')
+    lines.append(f'union U0 = {ON[0]} | {ON[1]}')
+    schema = '\n'.join(lines) + '\n'
+    frags, keys = [], set()
+    for k in (1, 2):
+        on = model[f'F{k}_on']
+        body = f'f{k}' if on == ON[0] else (f'__typename g{k}' if on == 'I0' else '__typename')
+        frags.append(f'fragment F{k} on {on} {{ {body} }}')
+    for s_ in model['selections']:
+        if s_ == '__typename':
+            keys.add('__typename')
+        elif s_ == 'leaf' or s_.startswith('... on'):
+            keys.add('leaf')
+        elif s_.startswith('...F'):
+            k = int(s_[4])
+            on = model[f'F{k}_on']
+            keys |= {f'f{k}'} if on == ON[0] else ({'__typename', f'g{k}'} if on == 'I0' else {'__typename'})
+    used = [f for f, k in zip(frags, (1, 2)) if f'...F{k}' in model['selections']]
+    query = 'query Q { n { ' + ' '.join(model['selections']) + ' } }\n' + '\n'.join(used) + '\n'
+    payload = {'n': {'__typename': ON[0], 'leaf': 1, 'g1': 4, 'g2': 5, 'f1': 2, 'f2': 3}}
+    return schema, query, payload, keys
